@@ -17,6 +17,7 @@ var verifForeignXID = dhcpv6.TransactionID{0xee, 0xee, 0xee}
 type verifServerMsg struct {
 	ownXID bool
 	mt     uint8
+	stale  bool   // (with !ownXID) carries the transaction id of the client's previous message
 	tag    []byte // a 2-byte payload under an unknown option code, to recognise the message
 }
 
@@ -34,6 +35,10 @@ func (c *verifServerConn) encode(m *verifServerMsg, req *dhcpv6.Message) []byte 
 	p := &dhcpv6.Message{MessageType: dhcpv6.MessageType(m.mt), TransactionID: req.TransactionID}
 	if !m.ownXID {
 		p.TransactionID = verifForeignXID
+		if m.stale && len(c.seen) >= 2 {
+			// a late or duplicated answer to the client's PREVIOUS message
+			p.TransactionID = c.seen[len(c.seen)-2].TransactionID
+		}
 	}
 	if c.full {
 		if cid := req.GetOneOption(dhcpv6.OptionClientID); cid != nil {
@@ -55,10 +60,8 @@ func (c *verifServerConn) WriteTo(b []byte, a net.Addr) (int, error) {
 	}
 	// foreign datagrams carry an id that no transaction of this client uses
 	verifAssume(!verifSameXID(req.TransactionID, verifForeignXID))
-	// independently drawn random ids do not collide
-	for _, prev := range c.seen {
-		verifAssume(!verifSameXID(req.TransactionID, prev.TransactionID))
-	}
+	// (independently drawn random ids do not collide: contract of the random source, stated in
+	// the executor's stub; it is NOT assumed here that the client draws a fresh id per message)
 	k := len(c.seen)
 	c.seen = append(c.seen, req)
 	c.dests = append(c.dests, a)
@@ -75,6 +78,9 @@ func verifBuildReplies(tag string, n int) []*verifServerMsg {
 	var l []*verifServerMsg
 	for i := 0; i < n; i++ {
 		m := &verifServerMsg{ownXID: verifBool(tag + ".ownxid"), mt: verifU8(tag + ".type"), tag: verifBytes(tag+".tag", 2)}
+		if tag == "r" {
+			m.stale = verifBool(tag + ".stale")
+		}
 		verifAssume(m.mt != 12)
 		verifAssume(m.mt != 13)
 		l = append(l, m)
